@@ -323,4 +323,49 @@ def check(run):
     emit(run, R, {"RANGE/store-lon"}, files=["uxarray/grid/coordinates.py", "uxarray/grid/grid.py"])
     _accept_wrap_by_callers(run, P)
     _lon_normalisation(run, P)
+    _copy_preserves(run, P)
+
+
+def _copy_preserves(run, P):
+    """"A copy of a grid equals the grid": Grid.copy hands the constructor (a) a dataset derived from self._ds by .copy(...) and (b) as source_grid_spec exactly
+    self.source_grid_spec - the one compared field that is not an array of the dataset.  Any other expression there (a default substituted for None, a constant,
+    a normalised spelling) makes g == g.copy() False for the grids on which it differs from the attribute."""
+    from ..astutil import LocalDefs
+    f = P.func(f"{GRID}:Grid.copy")
+    me = f.params()[0]
+    defs = LocalDefs(f.node)
+
+    def single(e):
+        n_ = 0
+        while isinstance(e, ast.Name) and n_ < 5:
+            d_ = defs.defs.get(e.id, [])
+            if len(d_) != 1 or d_[0][1] is not None or d_[0][2]:
+                break
+            e = d_[0][0]
+            n_ += 1
+        return e
+    rets = [r for r in ast.walk(f.node) if isinstance(r, ast.Return) and r.value is not None]
+    c = "Grid.copy:constructor-arguments"
+    if not rets:
+        run.incomplete("F-PATH/copy-preserves-compared-fields", c, where(f), "Grid.copy has no return")
+        return
+    for r in rets:
+        call = single(r.value)
+        if not (isinstance(call, ast.Call) and (dotted(call.func) or [""])[-1] in ("Grid", "cls", "type(self)", "__class__")) and not (isinstance(call, ast.Call) and norm(call.func) in ("type(self)", "self.__class__", f"type({me})", f"{me}.__class__")):
+            run.incomplete("F-PATH/copy-preserves-compared-fields", c, where(f, r), f"the copy is produced by {norm(r.value)[:60]}, not by a constructor call this rule reads")
+            continue
+        spec = next((k.value for k in call.keywords if k.arg == "source_grid_spec"), call.args[1] if len(call.args) > 1 else None)
+        if any(k.arg is None for k in call.keywords):
+            run.incomplete("F-PATH/copy-preserves-compared-fields", c, where(f, r), "constructor called with **kwargs")
+            continue
+        spec_e = single(spec) if spec is not None else None
+        if spec_e is None:
+            run.violation("F-PATH/copy-preserves-compared-fields", c, where(f, r), "the copy is constructed without source_grid_spec: __eq__ compares it, so the copy of a grid that has one differs from the grid")
+        elif norm(spec_e) == f"{me}.source_grid_spec":
+            run.holds("F-PATH/copy-preserves-compared-fields", c, where(f, r), "source_grid_spec passed on unchanged")
+        elif isinstance(spec_e, (ast.BoolOp, ast.IfExp, ast.Constant, ast.JoinedStr)) or (isinstance(spec_e, ast.Call) and isinstance(spec_e.func, ast.Attribute) and spec_e.func.attr in ("upper", "lower", "strip", "title", "capitalize")):
+            run.violation("F-PATH/copy-preserves-compared-fields", c, where(f, r),
+                          f"the copy gets source_grid_spec={norm(spec_e)[:60]} instead of the grid's own value: where the two differ (a grid built without a spec, another spelling) g == g.copy() is False, because __eq__ compares source_grid_spec")
+        else:
+            run.incomplete("F-PATH/copy-preserves-compared-fields", c, where(f, r), f"source_grid_spec={norm(spec_e)[:60]}: not recognised as the grid's own value")
 
